@@ -152,6 +152,15 @@ CLAIMS["C02"] = dict(
    design="6/C02", technique="Coq invariant of the seed-growing loop + family sweeps with metamorphic rewrites and K-run correspondence",
    note="Partial: the general statement (result = last strictly growing iterate of the reference semantics) and termination "
         "bounds are not theorems yet.")
+CLAIMS["C08"] = dict(
+   text="Closed-instance property decided by evaluation plus one generic Coq lemma (Props/C08.v): if one regeneration step "
+        "maps a text to itself then every later stage equals it. Re-established on every run: (a) instance lemma by "
+        "vm_compute: the generator MODEL's text for metagrammar.gram equals the text the real generator writes; (b) on the "
+        "implementation: that text equals the shipped grammar_parser.py as Python ASTs; stages 2 and 3 (regenerating with the "
+        "regenerated parser) are byte-identical to stage 1; the shipped and the regenerated parser read every .gram file of "
+        "the repository to structurally equal grammars.",
+   design="6/C08", technique="Coq lifting lemma + vm_compute instance of the generator model + staged regeneration on the implementation",
+   note="The reader side (regenerated parser reads the meta-grammar to the same grammar) is established by execution, not inside Coq.")
 NOT_YET = {}
 NOT_APPLICABLE = {
  "C06": "equates the generated parser with CPython's own C parser/ast.parse, for which no executable model exists "
